@@ -33,11 +33,21 @@ def parseSTS : Char → Option STS
   | 'a' => some .absent | 'n' => some .none | 't' => some .testing | 'e' => some .enforce
   | _ => none
 
-/-- `<srv>.<up>.<starttls>.<cert>.<stsMatch>.<aAD>.<tlsaAD>.<tlsa>.<reqtls>.<slow>`; the last field
-(latency of the TLSA answer) has no influence on the model. -/
+/-- alias suffix `<alias s|i><tlsa at the initial name><its AD bit><CNAME-type query fails>` -/
+def parseAlias (s : String) : Option (Alias × Tlsa × Bool × Bool) :=
+  match s.toList with
+  | [a, t, ad, ce] => do
+    let a ← if a == 's' then some Alias.secure else if a == 'i' then some Alias.insecure else none
+    let t ← parseTlsa (String.singleton t)
+    let ad ← bit? ad
+    let ce ← bit? ce
+    pure (a, t, ad, ce)
+  | _ => none
+
+/-- `<srv>.<up>.<starttls>.<cert>.<stsMatch>.<aAD>.<tlsaAD>.<tlsa>.<reqtls>.<slow>[.<alias>]`; the `slow` field
+(latency of the TLSA answers) has no influence on the model.  Without the alias field the MX name is not a CNAME. -/
 def parseMX (s : String) : Option MX :=
-  match s.splitOn "." with
-  | [srv, up, st, ce, sm, aad, tad, tl, rt, slow] => do
+  let core (srv up st ce sm aad tad tl rt slow : String) (al : Alias × Tlsa × Bool × Bool) : Option MX := do
     let srv ← srv.toNat?
     let up ← bitS? up
     let st ← parseStartTLS st
@@ -48,7 +58,13 @@ def parseMX (s : String) : Option MX :=
     let tl ← parseTlsa tl
     let rt ← bitS? rt
     let _ ← bitS? slow
-    pure ⟨srv, up, st, ce, sm, aad, tad, tl, rt⟩
+    pure ⟨srv, up, st, ce, sm, aad, tad, tl, rt, al.1, al.2.1, al.2.2.1, al.2.2.2⟩
+  match s.splitOn "." with
+  | [srv, up, st, ce, sm, aad, tad, tl, rt, slow] =>
+    core srv up st ce sm aad tad tl rt slow (.none, .none, false, false)
+  | [srv, up, st, ce, sm, aad, tad, tl, rt, slow, al] => do
+    let al ← parseAlias al
+    core srv up st ce sm aad tad tl rt slow al
   | _ => none
 
 def parseDom (s : String) : Option Domain :=
